@@ -93,15 +93,19 @@ def mergeable(stmts):
             for t in tg:
                 if isinstance(t, ast.Name):
                     continue
+                if isinstance(t, ast.Tuple) and all(isinstance(e, ast.Name) for e in t.elts) and isinstance(s, ast.Assign):
+                    continue
                 if isinstance(t, ast.Subscript) and not isinstance(t.slice, ast.Slice):
+                    continue
+                if isinstance(t, ast.Subscript) and isinstance(t.slice, ast.Slice) and t.slice.step is None and isinstance(s, ast.Assign):
                     continue
                 return False
             for n in ast.walk(s):
                 if isinstance(n, ast.Call) and not (isinstance(n.func, ast.Name) and (n.func.id in ARM_CALLS or n.func.id in ARM_FUNCS)):
                     return False
                 if isinstance(n, (ast.Yield, ast.YieldFrom, ast.Await, ast.NamedExpr, ast.Lambda,
-                                  ast.ListComp, ast.GeneratorExp, ast.SetComp, ast.DictComp)):
-                    return False
+                                  ast.GeneratorExp, ast.SetComp, ast.DictComp)):
+                    return False          # (list comprehensions are eager and, without calls, free of side effects)
             continue
         if isinstance(s, ast.For):
             tgt_ok = isinstance(s.target, ast.Name) or (isinstance(s.target, ast.Tuple) and all(isinstance(e, ast.Name) for e in s.target.elts))
@@ -272,6 +276,12 @@ class Transformer(ast.NodeTransformer):
         return out
 
     def visit_Assign(self, node):
+        if self.in_arm and len(node.targets) == 1 and isinstance(node.targets[0], ast.Subscript) and isinstance(node.targets[0].slice, ast.Slice):
+            t = node.targets[0]
+            none = ast.Constant(None)
+            call = ast.Call(_rt('store_slice'), [self.visit(t.value), self.visit(t.slice.lower) if t.slice.lower else none,
+                                                 self.visit(t.slice.upper) if t.slice.upper else none, self.visit(node.value)], [])
+            return ast.copy_location(ast.Expr(call), node)
         if self.in_arm and len(node.targets) == 1 and isinstance(node.targets[0], ast.Subscript):
             t = node.targets[0]
             call = ast.Call(_rt('store'), [self.visit(t.value), self.visit(t.slice), self.visit(node.value)], [])
